@@ -73,7 +73,26 @@ def run(tier, seed, only=None):
                     Fw[idx + (k,)] = r[k]
             back = fr.sym1({"alpha": [al], "beta": [be], **{x["name"] + "_sec_forces_w_frame": (Fw if x is s else np.zeros((x["mesh"].shape[0] - 1, x["mesh"].shape[1] - 1, 3))) for x in ss}})
             obs += idents("from(to(F)) %s" % nm, back[nm + "_sec_forces"], F, meta={"family": "rotating back from the wind frame inverts the rotation into it"})
-        run_obligations(rep, "RotateFrom o RotateTo = id[%s]" % cn, obs, timeout, levels=(2,), family=lambda ob: "RotateFromWindFrame: " + ob.meta["family"])
+        def inv_rp(ob, env, ss=ss, to=to, fr=fr):
+            rng = np.random.default_rng(2)
+            a_, b_ = 0.13, -0.21  # rad
+            bad = []
+            for sx in ss:
+                nm = sx["name"]
+                shp = (sx["mesh"].shape[0] - 1, sx["mesh"].shape[1] - 1, 3)
+                F = rng.standard_normal(shp)
+                ca, sa, cb, sb = np.cos(a_), np.sin(a_), np.cos(b_), np.sin(b_)
+                T = np.array([[cb * ca, -sb, cb * sa], [sb * ca, cb, sb * sa], [-sa, 0.0, ca]])
+                ins_ = {"alpha": [a_], "beta": [b_]}
+                for x in ss:
+                    sh2 = (x["mesh"].shape[0] - 1, x["mesh"].shape[1] - 1, 3)
+                    ins_[x["name"] + "_sec_forces_w_frame"] = (F @ T.T) if x is sx else np.zeros(sh2)
+                back = fr.real(ins_)[nm + "_sec_forces"]
+                if np.abs(back - F).max() > 1e-12:
+                    bad.append("%s: rotating T F back gives an error of %.3g" % (nm, np.abs(back - F).max()))
+            return bool(bad), "; ".join(bad) or "RotateFromWindFrame inverts the documented rotation"
+
+        run_obligations(rep, "RotateFrom o RotateTo = id[%s]" % cn, obs, timeout, levels=(2,), family=lambda ob: "RotateFromWindFrame: " + ob.meta["family"], replay=inv_rp)
         # ---- Prandtl-Glauert scaling exponents
         ins = sp.inputs()
         o = sp.sym1(ins)
@@ -186,7 +205,18 @@ def kernel_covariance(rep, timeout):
     wake = matvec(T0, [cos(a), ZERO, sin(a)])
     for k, want in enumerate((ONE, ZERO, ZERO)):
         obs.append(oblig.Ob("wake direction in wind frame [%d]" % k, lhs=wake[k], rhs=want, meta={"family": "at zero sideslip the wake direction (cos a, 0, sin a) maps to (1, 0, 0)"}))
-    run_obligations(rep, "kernel rotation covariance", obs, timeout, levels=(1, 2), relate=[], family=lambda ob: "PG frame: " + ob.meta["family"])
+    def cov_rp(ob, env):
+        rng = np.random.default_rng(4)
+        a_, b_ = 0.11, 0.23
+        ca, sa, cb, sb = np.cos(a_), np.sin(a_), np.cos(b_), np.sin(b_)
+        T = np.array([[cb * ca, -sb, cb * sa], [sb * ca, cb, sb * sa], [-sa, 0.0, ca]])
+        r1v, r2v, uv = rng.standard_normal((1, 3)) + 2.0, rng.standard_normal((1, 3)) - 1.5, np.array([[0.9, 0.1, 0.2]])
+        e1 = np.abs(np.asarray(em._compute_finite_vortex(r1v @ T.T, r2v @ T.T), dtype=float) - np.asarray(em._compute_finite_vortex(r1v, r2v), dtype=float) @ T.T).max()
+        e2 = np.abs(np.asarray(em._compute_semi_infinite_vortex(uv @ T.T, r2v @ T.T), dtype=float) - np.asarray(em._compute_semi_infinite_vortex(uv, r2v), dtype=float) @ T.T).max()
+        e3 = np.abs(T.T @ T - np.eye(3)).max()
+        return max(e1, e2, e3) > 1e-12, "real kernels under the wind-frame rotation: finite %.3g, semi-infinite %.3g, orthogonality %.3g" % (e1, e2, e3)
+
+    run_obligations(rep, "kernel rotation covariance", obs, timeout, levels=(1, 2), relate=[], family=lambda ob: "PG frame: " + ob.meta["family"], replay=cov_rp)
 
 
 def replay_file(path):
